@@ -357,6 +357,22 @@ theorem C07_ctor_shape :
     "wait_none(wait_fixed)" ∈ classBases ∧ "retry_unless_exception_type(retry_if_not_exception_type)" ∈ classBases := by
   refine ⟨rfl, rfl, rfl, rfl, rfl, rfl, rfl, rfl, rfl, rfl, rfl, rfl, rfl, rfl, rfl, rfl, rfl, rfl, rfl, rfl, rfl, rfl, rfl, rfl, rfl, rfl, rfl, rfl, by decide, by decide⟩
 
+/-- the defaults of every constructor parameter are the documented (tenacity-compatible) ones -/
+theorem C07_documented_defaults :
+    (dflt_wait_exponential_multiplier, dflt_wait_exponential_exp_base, dflt_wait_exponential_max, dflt_wait_exponential_min) = (1, 2, 60, 0) ∧
+    (dflt_wait_incrementing_start, dflt_wait_incrementing_increment, dflt_wait_incrementing_max) = (0, 100, none) ∧
+    (dflt_wait_random_min, dflt_wait_random_max) = (0, 1) ∧
+    (dflt_wait_exponential_jitter_initial, dflt_wait_exponential_jitter_exp_base, dflt_wait_exponential_jitter_max,
+      dflt_wait_exponential_jitter_jitter) = (1, 2, 60, 1) ∧
+    (dflt_wait_random_exponential_multiplier, dflt_wait_random_exponential_exp_base, dflt_wait_random_exponential_max,
+      dflt_wait_random_exponential_min) = (1, 2, 60, 0) ∧
+    (dflt_wait_full_jitter_multiplier, dflt_wait_full_jitter_exp_base, dflt_wait_full_jitter_max, dflt_wait_full_jitter_min) = (1, 2, 60, 0) ∧
+    (dflt_ConstantDelayRetryPolicy_maximum_attempts, dflt_ConstantDelayRetryPolicy_delay) = (3, 5) ∧
+    (dflt_ExponentialBackoffRetryPolicy_maximum_attempts, dflt_ExponentialBackoffRetryPolicy_initial_delay,
+      dflt_ExponentialBackoffRetryPolicy_multiplier, dflt_ExponentialBackoffRetryPolicy_max_delay,
+      dflt_ExponentialBackoffRetryPolicy_jitter) = (5, 1, 2, 60, some true) := by
+  decide
+
 /-- `retry_policy()` with no arguments: every exception, a fixed delay, a fixed attempt budget (as documented: 5 s, 3 attempts) -/
 theorem C07_default_policy (el : Rat) (k e : Nat) (u : Rat) :
     (mkPolicy none none none).eval.next el k e u =
